@@ -366,7 +366,20 @@ pub fn run_pipeline(scn: &Scenario) -> Value {
             let toks = make_toks(&scn.vals);
             match scn.src {
                 Src::DequeRef => {
-                    let d: VecDeque<Tok> = toks.into_iter().collect();
+                    // filled from both ends so that the ring buffer wraps (two non-empty slices)
+                    let mut d: VecDeque<Tok> = VecDeque::with_capacity(toks.len().max(1));
+                    let half = toks.len() / 2;
+                    let mut front: Vec<Tok> = vec![];
+                    for (i, t) in toks.into_iter().enumerate() {
+                        if i < half {
+                            front.push(t);
+                        } else {
+                            d.push_back(t);
+                        }
+                    }
+                    while let Some(t) = front.pop() {
+                        d.push_front(t);
+                    }
                     let r = chain_s0(set_params(d.par(), scn, 0).cloned(), scn, 0);
                     drop(d);
                     r
